@@ -222,7 +222,7 @@ def check(run):
     jbin = vlib.build_judge('sync')
     rng = run.rng
     quick = run.tier == 'quick'
-    n = 220 if quick else 4000
+    n = 220 if quick else 24000
     base = tempfile.mkdtemp(prefix='c01_', dir=vlib.CACHE)
     fake = e2e.fake_ssh_dir(base)
     try:
@@ -248,7 +248,7 @@ def check(run):
                 # remote placements: the command log is written by separate processes; traces are not compared
                 run.broke('correspondence', 'e2e-remote', json.dumps({'scenario': sc.to_json(), 'mismatch': o.mismatch})[:2500])
         run_table(run, binary, base)
-        run_spellings(run, binary, base, rng, 30 if quick else 400)
+        run_spellings(run, binary, base, rng, 30 if quick else 2000)
     finally:
         shutil.rmtree(base, ignore_errors=True)
     return run.finish(search=None)
